@@ -136,6 +136,27 @@ fn generic<S: Scheme>(ctx: &mut Ctx, rng: &mut ChaCha20Rng) {
         let p: LPoly<S> = LabeledPolynomial::new("b".into(), S::gen_poly(cfg, Shape::Full, 1.min(sup), rng), Some(beyond), None);
         let r = commit::<S>(&tx.w.ck, std::slice::from_ref(&p), 1);
         refused(ctx, "bound-beyond-key", "commit", json!({"cfg": cfg.json(), "bound": beyond}), r);
+        // bounds strictly between the supported and the maximum degree: refused by every scheme except Marlin
+        // (which documents enforced bounds up to max_degree)
+        if !S::NAME.starts_with("marlin") && cfg.supported_degree < cfg.max_degree {
+            let b = range(rng, cfg.supported_degree + 1, cfg.max_degree);
+            if b > sup {
+                let bl = [b];
+                let r = attempt(|| PcOf::<S>::trim(&tx.w.pp, cfg.supported_degree, cfg.supported_hiding, Some(&bl)));
+                match r {
+                    Err(o) => {
+                        ctx.count(&format!("refused:bound-above-supported:{}", o.tag()), 1);
+                        ctx.held("bound-above-supported", json!({"cfg": cfg.json(), "bound": b, "stage": "trim"}));
+                    }
+                    Ok((ck2, _)) => {
+                        // a key was handed out: it must at least refuse to commit under that bound
+                        let p: LPoly<S> = LabeledPolynomial::new("b".into(), S::gen_poly(cfg, Shape::Full, 1.min(sup), rng), Some(b), None);
+                        let r = commit::<S>(&ck2, std::slice::from_ref(&p), 1);
+                        refused(ctx, "bound-above-supported", "trim+commit", json!({"cfg": cfg.json(), "bound": b}), r);
+                    }
+                }
+            }
+        }
         // a commitment presented with a bound the verifier key was not trimmed for
         if let Some(i) = (0..tx.polys.len()).find(|&i| tx.specs[i].bound.is_some()) {
             let cs: Vec<LComm<S>> = tx.c.comms.iter().enumerate().map(|(j, c)| if j == i { LabeledCommitment::new(c.label().clone(), c.commitment().clone(), Some(beyond)) } else { c.clone() }).collect();
